@@ -43,7 +43,7 @@ def models(tier):
 def run(tier):
     rep = Report("C13", tier, "model_checking")
     common.pool()
-    depth = 6 if tier == "thorough" else 4
+    depth = 7 if tier == "thorough" else 5
     tot = monitors.run_models(rep, models(tier), depth, dedup_depth_plain=depth - 2, time_cap=1500 if tier == "thorough" else 110)
     rep.cov.update({"states": tot["states"], "transitions": tot["transitions"], "traces_validated_against_impl": tot["transitions"] + tot["plain_transitions"],
                     "max_depth": tot["max_depth"], "states_without_dedup": tot["plain_states"],
